@@ -198,7 +198,7 @@ func (h *Hub) Run() {
 				// sends under the room lock, so closing first let a concurrent room
 				// broadcast send on a closed channel and panic.
 				h.roomManager.RemoveConnectionFromAllRooms(conn)
-				close(conn.send)
+				conn.closeSend()
 				h.metrics.DecrementConnections()
 				h.metrics.UnregisterConnection(conn.ID)
 
@@ -249,7 +249,7 @@ func (h *Hub) Run() {
 				default:
 					delete(h.connections, conn)
 					h.roomManager.RemoveConnectionFromAllRooms(conn)
-					close(conn.send)
+					conn.closeSend()
 				}
 			}
 			h.connMu.Unlock()
